@@ -2,7 +2,7 @@ import random, sys, json
 from fractions import Fraction
 rnd = random.Random(int(sys.argv[1]))
 N = int(sys.argv[2])
-KEYS = ['a','b','c','ab','a b',"a'b",'a"b','','0','1','é','☺',"'a'",'a/b','a~b','\\','x\ty',' a','a ']
+KEYS = ['a','b','c','ab','a b',"a'b",'a"b','','0','1','é','☺',"'a'",'a/b','a~b','\\','x\ty',' a','a ', '\x7f', 'a\x7fb', '"a"']
 SCAL = [None, True, False, 0, 1, -1, 2, 3, 10, 1.0, 0.5, -0.5, 2.0, 1.5, 100.0, 2.0**-60, 0.0, '', 'a', 'b', 'ab', 'é', '𝄞', 'A', 'a b', '1']
 def doc(depth=0):
     r = rnd.random()
@@ -90,8 +90,18 @@ def fquery(ks, d, rel):
     s = '@' if rel else '$'
     for _ in range(rnd.choice([0,1,1,2])): s += segment(ks, d)
     return s
+def deep(d):
+    """wrap a small document in many container levels: behaviour must not change with nesting depth"""
+    k = rnd.choice([5, 20, 50, 63, 64, 65, 70, 90, 100])
+    for i in range(k):
+        d = [d] if rnd.random() < 0.7 else ({'a': d} if rnd.random() < 0.7 else [0, d])
+    return d
 for _ in range(N):
     d = doc()
+    if rnd.random() < 0.03:
+        d = deep(rnd.choice([[{"id": 1}, {"id": 2}, {"id": 3}], {"a": {"b": 1}, "c": {"b": 2}, "b": 3}, [[1, 2], [3, [4, 5]]], d]))
+        q = rnd.choice(['$..id', '$..b', '$..*', '$..[0]', '$..[*]', '$..[?@.id]', "$..['a']", '$..[-1]', '$..[::-1]', '$..a..b'])
+        print(json.dumps({"q": q, "doc": d, "tdoc": tag(d)}, ensure_ascii=False)); continue
     ks = sorted(keys_of(d, set())) or ['a']
     if rnd.random() < 0.3: ks = ks + ['zz']
     q = '$'
